@@ -64,7 +64,7 @@ func (c09) FaultKinds() []string {
 	return []string{"F1_rejected_reconfigure", "op_setdebug_on_passthrough", "op_reconfigure_nil"}
 }
 func (c09) Probes() []string {
-	return []string{"debug_on_observed", "debug_off_observed", "passthrough_observed", "setdebug_true_then_configure", "debug_survives_reconfigure", "twin_debug_pairs_compared"}
+	return []string{"debug_on_observed", "debug_off_observed", "passthrough_observed", "setdebug_true_then_configure", "debug_survives_reconfigure", "twin_debug_pairs_compared", "history_twin_compared"}
 }
 
 func hasObservableDebug(c Cfg) bool { _, ok := debugProbe(c); return ok }
@@ -265,8 +265,19 @@ func (c09) Exec(plan any, c *Ctx) *Violation {
 		if v := observe(step); v != nil {
 			return v
 		}
+		if configured && (op == opReconfA || op == opReconfB || op == opRestore || op == opDebugOn) {
+			// the state as this history reached it, against a fresh middleware in the opposite mode (every 4th probe)
+			if v := historyTwin(srv, cur, debug, 4, "after "+p.key()[:min(len(p.key()), 200)], c, p.key()); v != nil {
+				return v
+			}
+		}
 	}
 	c.Nontrivial = sawSet && sawReconf
+	if configured {
+		if v := historyTwin(srv, cur, debug, 1, "at the end of "+p.key(), c, p.key()); v != nil {
+			return v
+		}
+	}
 	// second clause: debug changes only the diagnostics of failing preflights
 	for _, cfg := range []Cfg{p.A, p.B} {
 		if v := debugTwins(cfg, c, p.key()); v != nil {
@@ -300,8 +311,30 @@ func debugTwins(cfg Cfg, c *Ctx, key string) *Violation {
 		return nil
 	}
 	on.SetDebug(true)
-	sOff, sOn := newServer(off.Wrap), newServer(on.Wrap)
-	for _, q := range probeSuite(cfg) {
+	return compareDebugPair(newServer(off.Wrap), newServer(on.Wrap), cfg, probeSuite(cfg), 1, "fresh twins", c, key)
+}
+
+// historyTwin compares the middleware as the HISTORY left it (debug mode d by
+// the model, already confirmed by the probe) with a fresh middleware of the
+// same configuration in the opposite mode: however debug mode was reached, it
+// may change only the diagnostics of failing preflights.
+func historyTwin(srv *mwServer, cfg Cfg, d bool, stride int, where string, c *Ctx, key string) *Violation {
+	fresh, err, _ := newMW(cfg)
+	if err != nil {
+		return nil
+	}
+	fresh.SetDebug(!d)
+	fs := newServer(fresh.Wrap)
+	c.hit("history_twin_compared")
+	if d {
+		return compareDebugPair(fs, srv, cfg, probeSuite(cfg), stride, where, c, key)
+	}
+	return compareDebugPair(srv, fs, cfg, probeSuite(cfg), stride, where, c, key)
+}
+
+func compareDebugPair(sOff, sOn *mwServer, cfg Cfg, suite []Req, stride int, where string, c *Ctx, key string) *Violation {
+	for i := 0; i < len(suite); i += stride {
+		q := suite[i]
 		a, b := sOff.do(q), sOn.do(q)
 		c.hit("twin_debug_pairs_compared")
 		if a.Panic != "" || b.Panic != "" {
@@ -310,16 +343,16 @@ func debugTwins(cfg Cfg, c *Ctx, key string) *Violation {
 		switch {
 		case a == b:
 		case !isPreflightReq(q):
-			if a != b {
-				return &Violation{Class: "debug-changes-non-preflight", Key: q.String(), Detail: fmt.Sprintf("cfg=%s req=%s debug off: %s; debug on: %s", cfg, q, a, b)}
-			}
+			return &Violation{Class: "debug-changes-non-preflight", Key: q.String(), Detail: fmt.Sprintf("%s: cfg=%s req=%s debug off: %s; debug on: %s", where, cfg, q, a, b)}
 		case isOK(a.Status): // succeeds with debug off
-			if a.Status != b.Status || a.Body != b.Body || a.Handler != b.Handler || stripAC(a.Headers, hACAH) != stripAC(b.Headers, hACAH) {
-				return &Violation{Class: "debug-changes-successful-preflight", Key: q.String(), Detail: fmt.Sprintf("cfg=%s req=%s debug off: %s; debug on: %s", cfg, q, a, b)}
+			_, offHasACAH := fpGet(a.Headers, hACAH)
+			_, onHasACAH := fpGet(b.Headers, hACAH)
+			if a.Status != b.Status || a.Body != b.Body || a.Handler != b.Handler || stripAC(a.Headers, hACAH) != stripAC(b.Headers, hACAH) || offHasACAH != onHasACAH {
+				return &Violation{Class: "debug-changes-successful-preflight", Key: q.String(), Detail: fmt.Sprintf("%s: cfg=%s req=%s debug off: %s; debug on: %s", where, cfg, q, a, b)}
 			}
 		default:
 			if a.Body != b.Body || a.Handler != b.Handler || stripAC(a.Headers, "") != stripAC(b.Headers, "") {
-				return &Violation{Class: "debug-changes-beyond-diagnostics", Key: q.String(), Detail: fmt.Sprintf("cfg=%s req=%s debug off: %s; debug on: %s", cfg, q, a, b)}
+				return &Violation{Class: "debug-changes-beyond-diagnostics", Key: q.String(), Detail: fmt.Sprintf("%s: cfg=%s req=%s debug off: %s; debug on: %s", where, cfg, q, a, b)}
 			}
 		}
 	}
